@@ -618,11 +618,9 @@ def _resolve(t, val):
     def bs(c):
         if c in val:
             return T.C(val[c])
-        if c[0] in ('and', 'or'):
-            return T.mk_bool(c[0], [bs(x) for x in c[1]])
         if c[0] == 'not':
             return T.mk_not(bs(c[1]))
-        return c
+        return c            # `a or b` is not taken apart: which operand is evaluated first would be forgotten
     sub = {}
     for x in T.walk(t):
         if x[0] == 'ite' and len(x) == 4 and x not in sub and bs(x[1]) != x[1]:
@@ -687,10 +685,132 @@ def ite_equiv(a, b, max_atoms=8):
     return True
 
 
+def _leaf_atoms(c, acc):
+    if c[0] in ('and', 'or'):
+        for x in c[1]:
+            _leaf_atoms(x, acc)
+    elif c[0] == 'not':
+        _leaf_atoms(c[1], acc)
+    elif c not in acc:
+        acc.append(c)
+
+
+def _resolve_effects(t, val, trusted=frozenset()):
+    """decide every `if` effect and every conditional value whose condition is determined by val; effects after an exit are
+    unreachable and dropped"""
+    def bs(c):
+        if c in val:
+            return T.C(val[c])
+        if c[0] in ('and', 'or'):
+            return T.mk_bool(c[0], [bs(x) for x in c[1]])
+        if c[0] == 'not':
+            return T.mk_not(bs(c[1]))
+        return c
+
+    def is_effs(t):
+        return type(t) is tuple and t and all(type(x) is tuple and x and type(x[0]) is str for x in t) \
+            and any(x[0] in ('if', 'exit', 'do', 'assert', 'for', 'while', 'yield', 'try') for x in t)
+
+    def short_circuit(c, trace):
+        """truth of c under val, evaluating left to right like Python; the atoms actually evaluated go to `trace`
+        (an operand that is not reached is not evaluated - and could have raised)"""
+        if c[0] == 'not':
+            r = short_circuit(c[1], trace)
+            return None if r is None else (not r)
+        if c[0] in ('and', 'or'):
+            for x in c[1]:
+                r = short_circuit(x, trace)
+                if r is None:
+                    return None
+                if r == (c[0] == 'or'):
+                    return r
+            return c[0] == 'and'
+        trace.append(c)
+        if c in val:
+            return val[c]
+        tv = T.truth(c) if T.is_c(c) else None
+        return tv
+
+    def effs(t):
+        out = []
+        for e in t:
+            if e[0] == 'if' and len(e) == 4:
+                tr = []
+                tv = short_circuit(e[1], tr)
+                if tv is not None:
+                    out.extend(('tested', a_) for a_ in tr if not T.is_c(a_))      # which conditions were evaluated, in order
+                    out.extend(effs(e[2] if tv else e[3]))
+                else:
+                    c = bs(e[1])
+                    out.append(('if', c, effs(e[2]), effs(e[3])))
+            else:
+                out.append(rec(e))
+            if out and out[-1][0] == 'exit':
+                break
+        return tuple(out)
+
+    def rec(t):
+        if type(t) is not tuple or not t:
+            return t
+        if is_effs(t):
+            return effs(t)
+        if t[0] == 'ite' and len(t) == 4:
+            # a conditional VALUE is decided only through its whole condition (or a condition some `if` of the summaries tests
+            # in exactly this form): taking `a or b` apart here would forget which operand is evaluated first
+            c0 = t[1]
+            if c0 in val:
+                tv = val[c0]
+            elif c0 in trusted:
+                tv = short_circuit(c0, [])
+            else:
+                tv = T.truth(c0) if T.is_c(c0) else None
+            if tv is not None:
+                return rec(t[2] if tv else t[3])
+            return ('ite', c0, rec(t[2]), rec(t[3]))
+        return tuple(rec(x) for x in t)
+    return rec(t)
+
+
+def effect_tree_equiv(a, b, max_atoms=12):
+    """Two function summaries that differ in how their decisions are arranged (guard clause first vs nested if/elif, one exit
+    with a conditional value vs an exit per branch): equal iff, for EVERY valuation of the atomic conditions they test, the
+    decided summaries are the same sequence of effects.  Sound: nothing is assumed about the atoms (inconsistent valuations
+    are merely extra obligations), and effects / values outside the decided conditionals are compared structurally."""
+    atoms = []
+    trusted = set()
+    for t in (a, b):
+        for x in T.walk(t):
+            if x[0] == 'if' and len(x) == 4:
+                _leaf_atoms(x[1], atoms)
+                trusted.add(x[1])
+    for t in (a, b):
+        for x in T.walk(t):
+            if x[0] == 'ite' and len(x) == 4 and x[1] not in trusted and x[1] not in atoms:
+                atoms.append(x[1])          # whole condition: its operands keep their order
+    atoms = [c for c in atoms if not any(x[0] == 'ite' for x in T.walk(c))]
+    if not atoms or len(atoms) > max_atoms:
+        return False
+    import itertools
+    trusted = frozenset(trusted)
+    for bits in itertools.product((True, False), repeat=len(atoms)):
+        val = dict(zip(atoms, bits))
+        if not _consistent(val):
+            continue
+        if _resolve_effects(a, val, trusted) != _resolve_effects(b, val, trusted):
+            return False
+    return True
+
+
 def equiv_mod_ite(a, b):
     """Structural equality, except that sub-terms rooted at a conditional are compared as decision trees."""
     if a == b:
         return True
+    if type(a) is tuple and type(b) is tuple and a and b and a[0] == 'fn' and b[0] == 'fn' and len(a) == len(b) and a[:2] == b[:2]:
+        try:
+            if effect_tree_equiv(a, b):
+                return True
+        except RecursionError:
+            pass
     if type(a) is not tuple or type(b) is not tuple or not a or not b:
         return False
     ta, tb = a[0], b[0]
